@@ -199,6 +199,32 @@ func defRHS(fi *load.FuncInfo, info *types.Info, e ast.Expr) ast.Expr {
 	return out
 }
 
+// reachingDefRHS returns the right-hand side of the last assignment to e that
+// precedes site and whose enclosing block also encloses site (assignments in
+// sibling branches do not reach).
+func reachingDefRHS(fi *load.FuncInfo, info *types.Info, e ast.Expr, site ast.Node) ast.Expr {
+	id, ok := ast.Unparen(e).(*ast.Ident)
+	if !ok {
+		return nil
+	}
+	var out ast.Expr
+	ast.Inspect(fi.Decl.Body, func(n ast.Node) bool {
+		as, ok := n.(*ast.AssignStmt)
+		if !ok || len(as.Rhs) != 1 || as.End() > site.Pos() {
+			return true
+		}
+		for _, lx := range as.Lhs {
+			if l, ok := lx.(*ast.Ident); ok && info.ObjectOf(l) == info.ObjectOf(id) {
+				if contains(enclosingBlock(fi.Decl.Body, as), site) {
+					out = as.Rhs[0]
+				}
+			}
+		}
+		return true
+	})
+	return out
+}
+
 func assignedFromCall(fi *load.FuncInfo, info *types.Info, e ast.Expr) *ast.CallExpr {
 	call, _ := defRHS(fi, info, e).(*ast.CallExpr)
 	return call
